@@ -180,6 +180,14 @@ impl JsonGen {
                 }
             }
         }
+        // inclusive and exclusive keyword on the same side (ties included)
+        if rng.chance(1, 6) {
+            if let Some(b) = o.get("maximum").and_then(|v| v.as_i64()) {
+                o["exclusiveMaximum"] = json!(b + rng.range(-1, 1));
+            } else if let Some(a) = o.get("minimum").and_then(|v| v.as_i64()) {
+                o["exclusiveMinimum"] = json!(a + rng.range(-1, 1));
+            }
+        }
         if rng.chance(1, 4) {
             o["multipleOf"] = json!(*rng.pick(&[2, 3, 5, 7, 10]));
         }
